@@ -114,4 +114,6 @@ VARIANTS = [
     {'id': 'c14-benign-keys-loop', 'property': 'C14', 'kind': 'benign', 'file': 'opendsm/common/base_settings.py', 'old': '                return {k.lower().strip() if isinstance(k, str) else k: __lower__(v) for k, v in value.items()}', 'new': '                out = {}\n                for k, v in value.items():\n                    if isinstance(k, str):\n                        k = k.strip().lower()\n                    out[k] = __lower__(v)\n                return out'},
     {'id': 'c14-checker-returns-at-nested', 'property': 'C14', 'kind': 'break', 'expect_rule': 'R14.2', 'expect_key': 'iterates-all-fields', 'file': 'opendsm/eemeter/models/daily/utilities/settings.py', 'old': '            _check_developer_mode(getattr(cls, k))\n', 'new': '            return _check_developer_mode(getattr(cls, k))\n'},
     {'id': 'c14-benign-checker-class-fields', 'property': 'C14', 'kind': 'benign', 'file': 'opendsm/eemeter/models/daily/utilities/settings.py', 'old': '    for k, v in cls.model_fields.items():', 'new': '    for k, v in type(cls).model_fields.items():'},
+    {'id': 'c14-adaptive-tol-falsy', 'property': 'C14', 'kind': 'break', 'expect_rule': 'R14.6', 'file': 'opendsm/eemeter/models/hourly/settings.py', 'old': '            if self.adaptive_weight_tol is not None:\n                raise ValueError(\n                    "\'adaptive_weight_tol\' must be None if \'adaptive_weights\' is False."', 'new': '            if self.adaptive_weight_tol:\n                raise ValueError(\n                    "\'adaptive_weight_tol\' must be None if \'adaptive_weights\' is False."'},
+    {'id': 'c14-defaults-cached-on-class', 'property': 'C14', 'kind': 'break', 'expect_rule': 'R14.2', 'expect_key': 'own-approved-values-whatever-came-before', 'edits': [{'file': 'opendsm/eemeter/models/daily/utilities/settings.py', 'old': '        elif v.json_schema_extra["developer"] and getattr(cls, k) != v.default:', 'new': '        elif v.json_schema_extra["developer"] and getattr(cls, k) != _approved(type(cls)).get(k, v.default):'}, {'file': 'opendsm/eemeter/models/daily/utilities/settings.py', 'old': 'def _check_developer_mode(cls):   \n', 'new': 'def _approved(klass):\n    if not hasattr(klass, "_approved_values"):\n        klass._approved_values = {k: v.default for k, v in klass.model_fields.items() if v.default_factory is None}\n    return klass._approved_values\n\n\ndef _check_developer_mode(cls):   \n'}]},
 ]
